@@ -1095,6 +1095,9 @@ func (e *SpecEnv) applySpecFn(sf *SpecFn, argExprs []Expr) SV {
 		ret := n.resolveType(sf.Ret)
 		var sorts, ts []string
 		for i, a := range args {
+			if isNilType(a.typ) {
+				a = n.vars[sf.Params[i].Name] // a literal nil argument: the typed zero value (a nil slice is (content, 0, 0), not a pointer)
+			}
 			ss, tt := e.uninterpArg(a, n.resolveType(sf.Params[i].Type)) // slices of leaf elements: (block content, offset, length), see ext_c34.go
 			sorts = append(sorts, ss...)
 			ts = append(ts, tt...)
